@@ -105,7 +105,7 @@ theorem decode_v6_ntopFails (c : Cfg) (hg : c.Good) (sup : Bool) (ip : Bytes) (h
     have hne : ¬ (10 = 2) := by decide
     try simp only [hne, if_false]
     cases hle : c.littleEndian <;> cases sup <;>
-      simp [perWord, swap32_length 4 ip h4, hl, hg.afInet]
+      simp [perWord, swap32_length 4 ip h4, hl, hg.afInet, hg.v6RaiseUnsupported]
 
 theorem decode_v6_noV6 (c : Cfg) (hg : c.Good) (ip : Bytes) (hl : ip.length = 16) (hb : ∀ b ∈ ip, b < 256)
     (port : Nat) (hp : port < 65536) :
@@ -158,7 +158,10 @@ theorem processInetLine_noV6 (c : Cfg) (hg : c.Good) (s : Sock) (h6 : s.fam = .i
       have hSS : (Cfg.noV6 c).sockStream = 1 := hg.sockStream
       have hCN : (Cfg.noV6 c).connNone = "NONE" := hg.connNone
       have hTS : (Cfg.noV6 c).tcpStatuses = c.tcpStatuses := rfl
-      rw [hl, hr, hSS, hCN, hTS]
+      have hSk : v6Skip (Cfg.noV6 c) = .ok none := by
+        have : (Cfg.noV6 c).v6SkipLine = true := hg.v6SkipLine
+        simp [v6Skip, this]
+      rw [hl, hr, hSS, hCN, hTS, hSk]
       have hbase : baseRow s = ⟨0, 10, s.typ, endpoint s.lip s.lport, endpoint s.rip s.rport,
           (if s.typ = 1 then (stateName s.state).getD "" else "NONE"), none⟩ := by
         simp [baseRow, h6, Fam.num]
